@@ -16,10 +16,56 @@ INVARIANT Emit
 """
 PLAN = {
     'quick': [('adds4-names4', {'Names': '{"A","B","C","D"}', 'NONE': '"-"', 'MaxAdds': 4, 'Threads': '{1,2,3,4096}', 'EmitCases': 'TRUE'}, 0),
-              ('random-adds10-names7', None, 4000)],
+              ('random-adds10-names7', None, 24000)],
     'thorough': [('adds4-names5', {'Names': '{"A","B","C","D","E"}', 'NONE': '"-"', 'MaxAdds': 4, 'Threads': '{1,2,3,4096}', 'EmitCases': 'TRUE'}, 0),
-                 ('random-adds12-names8', None, 60000)],
+                 ('random-adds12-names8', None, 240000)],
 }
+
+
+def gen_adds(rnd, names, maxlen, k):
+    """Add sequences of four shapes (k mod 4): uniform; names registered first (in a random order) and then
+    related; a star (many names related to one hub, the shape union-find mistakes need); relations that
+    prefer to merge two different components."""
+    shape = k % 4
+    adds = []
+    if shape == 0:
+        for _ in range(rnd.randint(4, maxlen)):
+            x = rnd.choice(names)
+            y = rnd.choice(names + ['-']) if rnd.random() < 0.8 else '-'
+            adds.append([x, y])
+        return adds
+    pool = names[:]
+    rnd.shuffle(pool)
+    pool = pool[:rnd.randint(4, len(pool))]
+    if shape != 3 or rnd.random() < 0.5:
+        # registration order: some or all names are first seen alone
+        pre = pool[:rnd.randint(0, len(pool))]
+        rnd.shuffle(pre)
+        adds += [[x, '-'] for x in pre]
+    comp = {x: x for x in pool}
+    def find(x):
+        while comp[x] != x:
+            x = comp[x]
+        return x
+    if shape == 2:
+        hub = rnd.choice(pool)
+        spokes = [x for x in pool if x != hub]
+        rnd.shuffle(spokes)
+        for x in spokes:
+            adds.append([x, hub] if rnd.random() < 0.7 else [hub, x])
+            if rnd.random() < 0.15:
+                adds.append([rnd.choice(pool), rnd.choice(pool + ['-'])])
+        return adds
+    for _ in range(rnd.randint(3, maxlen)):
+        x = rnd.choice(pool)
+        others = [y for y in pool if find(y) != find(x)]
+        if others and rnd.random() < 0.75:
+            y = rnd.choice(others)
+            comp[find(y)] = find(x)
+        else:
+            y = rnd.choice(pool + ['-'])
+        adds.append([x, y])
+    return adds
 
 
 def check(prop, tier):
@@ -36,12 +82,7 @@ def check(prop, tier):
                 recs = os.path.join(work, tag + '.ndjson')
                 with open(recs, 'w') as f:
                     for k in range(nrandom):
-                        adds = []
-                        for _ in range(rnd.randint(4, 10 if tier == 'quick' else 12)):
-                            x = rnd.choice(names)
-                            y = rnd.choice(names + ['-']) if rnd.random() < 0.8 else '-'
-                            adds.append([x, y])
-                        f.write(json.dumps({'id': k, 'adds': adds}) + '\n')
+                        f.write(json.dumps({'id': k, 'adds': gen_adds(rnd, names, 10 if tier == 'quick' else 12, k)}) + '\n')
                 st = tlc('Val_Dist', constants={'Names': '{' + ','.join('"%s"' % x for x in names) + '}', 'NONE': '"-"', 'Threads': '{1,2,3,5,4096}'},
                          cfg_body=VAL_CFG, out=out, tag=tag, env={'RQ_RECORDS': recs})
             else:
